@@ -114,6 +114,25 @@ func vC03Check(input string) {
 		}
 		class += "/opens-" + opens
 	}
+	// and what the consumed text ends with (a literal, a name, a bracket ...)
+	after := "nothing"
+	if n := len(vm.Matched); n > 0 {
+		switch c := vm.Matched[n-1]; {
+		case c >= '0' && c <= '9':
+			after = "digit"
+		case c >= 'a' && c <= 'z' || c >= 'A' && c <= 'Z' || c == '_' || c >= 0x80:
+			after = "name"
+		case c == ']' || c == ')' || c == '}' || c == '\'' || c == ';':
+			after = string(rune(vConcretizeInt64(int64(c), 128)))
+		case c == '"':
+			after = "dquote"
+		case c == '`':
+			after = "backtick"
+		default:
+			after = "other"
+		}
+	}
+	class += "/after-" + after
 	vNote("class", class)
 	ret1, det1, attrs1 := vm.Ret.ToRepr(), vm.GetDetailText(), vAttrsString(vm)
 	vm2 := vNewVM()
